@@ -44,7 +44,7 @@ theorem information_gain_shift {α : Type} (T : TOps α) (c : Rat) (ref est : Li
 example : continuityCore ([5, 6, 7, 8].map (· + 2)) ([5, 6, 7, 17 / 2].map (· + 2)) (7 / 40) (7 / 40) =
     .ok (3 / 4, 3 / 4, 3 / 4, 3 / 4) := by decide +kernel
 example : beatErrors [5, 6, 7] [21 / 4, 6] = .ok [1 / 4, 0] := by decide +kernel
-example : pScoreCore ([5, 6, 7].map (· + 3)) ([5, 6, 15 / 2].map (· + 3)) (1 / 5) = .ok (2 / 3) := by decide +kernel
+example : pScoreCore ([5, 6, 7].map (· + 3)) ([5, 6, 15 / 2].map (· + 3)) (1 / 5) = 2 / 3 := by decide +kernel
 example : gotoCore [5, 6, 7, 8, 9] [5, 6, 7, 8, 9] (7 / 20) (1 / 5) (1 / 5) = .ok (1, false) := by decide +kernel
 
 end Mir.C08.Beat
